@@ -471,7 +471,8 @@ def run(chk):
     # ---- (V) judge ----------------------------------------------------------------------------------
     e2e, loops, owner = [], [], {}
     stats = {"cases": len(cases), "fonts_with_results": 0, "runs": 0, "distinct_results": 0, "results_that_differ_structurally_from_memory": 0,
-             "compiles_that_raised": 0, "loop_traces": 0, "loop_traces_with_overflow": 0, "harfbuzz_internal_restructuring": 0}
+             "compiles_that_raised": 0, "loop_traces": 0, "loop_traces_with_overflow": 0,
+             "harfbuzz_internal_restructuring": 0}   # results of the HarfBuzz modes whose tables differ structurally from memory
     for case, r in zip(cases, outs):
         if r["skip"]:
             chk.skip(r["skip"])
@@ -487,6 +488,7 @@ def run(chk):
             stats["distinct_results"] += len(t["runs"])
             stats["results_that_differ_structurally_from_memory"] += sum(1 for x in t["runs"] if not x["sameM"] and not x["err"])
             stats["compiles_that_raised"] += sum(1 for x in t["runs"] if x["err"])
+            stats["harfbuzz_internal_restructuring"] += sum(1 for x in t["runs"] if not x["sameM"] and not x["err"] and any(m in ("N", "T") for m, _l in x["modes"]))
             for x in t["runs"]:
                 if x["err"]:
                     d = stats.setdefault("errors_raised (case: exception per mode)", {})
